@@ -172,7 +172,7 @@ def raw_phdr(fr):
                     l4 = ["p", be(pay[0:2]), be(pay[2:4])]
                     if proto == 6:
                         doff = (pay[12] >> 4) * 4
-                        if doff < 20 or doff > len(pay) or any(x != 1 for x in pay[20:doff]): l4, ok = None, frag
+                        if doff < 20 or doff > len(pay): l4, ok = None, frag      # the option area's content has no bearing on the ports
                 else: ok = frag
             elif proto == 1:
                 if len(pay) >= 4: l4 = ["i", pay[0], pay[1]]
